@@ -105,7 +105,9 @@ func (state *inflate) setupDynamicHeader() error {
 		return errInvalidBlock
 	}
 
-	state.distTable.genForDists(ctx.litAndDistHuff[litLen:distLen+litLen], ctx.distCount[:], distLen)
+	if !state.distTable.genForDists(ctx.litAndDistHuff[litLen:distLen+litLen], ctx.distCount[:], distLen) {
+		return errInvalidBlock
+	}
 	err = ctx.setAndExpandLitLenHuffCode()
 	if err != nil {
 		return err
@@ -520,7 +522,9 @@ const (
 	distSymLenOffset   = smallShortCodeLenOffset
 )
 
-func (t *smallHuffCodeTable) genForDists(codes []huffCode, count []uint16, maxSymbol uint32) {
+// genForDists reports false if the long-code table cannot hold the code, which
+// only an incomplete (hence invalid) distance code can cause.
+func (t *smallHuffCodeTable) genForDists(codes []huffCode, count []uint16, maxSymbol uint32) bool {
 	var countTotal, countTotalTmp [17]uint32
 
 	for i := 2; i < 17; i++ {
@@ -535,7 +539,7 @@ func (t *smallHuffCodeTable) genForDists(codes []huffCode, count []uint16, maxSy
 		for i := range t.ShortCodeLookup {
 			t.ShortCodeLookup[i] = 0
 		}
-		return
+		return true
 	}
 	var codeList [distLen + 2]uint32 /* The +2 is for the extra codes in the static header */
 	for i, code := range codes {
@@ -599,6 +603,12 @@ func (t *smallHuffCodeTable) genForDists(codes []huffCode, count []uint16, maxSy
 				tempCodeLength++
 			}
 		}
+		if longCodeLookupLength+(1<<(maxLength-distLookupBits)) > uint32(len(t.LongCodeLookup)) {
+			// The table is large enough for every complete code; an
+			// incomplete code made of long codes spread over many 10-bit
+			// prefixes can need more (up to 86 entries).
+			return false
+		}
 		for x := longCodeLookupLength; x < longCodeLookupLength+(1<<(maxLength-distLookupBits)); x++ {
 			t.LongCodeLookup[x] = 0
 		}
@@ -623,4 +633,5 @@ func (t *smallHuffCodeTable) genForDists(codes []huffCode, count []uint16, maxSy
 			(maxLength << smallShortCodeLenOffset) | smallFlagBit)
 		longCodeLookupLength += 1 << (maxLength - distLookupBits)
 	}
+	return true
 }
